@@ -450,3 +450,53 @@ fn verif_replay() {
     }
     println!("VERIF-REPLAY: done");
 }
+
+// C13: recovery on a store with given global / cluster epochs through the real MemoryStorage::recover_epoch wrapper;
+// every view served afterwards must carry an epoch above the largest proxy epoch.
+#[test]
+fn verif_replay_recover_views() {
+    use crate::broker::storage::{MemoryStorage, MetaStorage};
+    use std::sync::Arc;
+    let path = match std::env::var("VERIF_REPLAY_FILE") {
+        Ok(p) => p,
+        Err(_) => return,
+    };
+    let spec: Value = serde_json::from_str(&std::fs::read_to_string(&path).expect("read")).expect("json");
+    let largest = spec["largest_proxy_epoch"].as_u64().expect("largest");
+    let mut store = MetaStore::new(false);
+    for (i, host) in ["10.0.0.1", "10.0.0.2"].iter().enumerate() {
+        for k in 0..2 {
+            store
+                .add_proxy(format!("{}:70{}{}", host, i, k), [format!("{}:80{}0", host, k), format!("{}:80{}1", host, k)], None, None)
+                .expect("add proxy");
+        }
+    }
+    store.add_cluster("c1".to_string(), 4, ClusterConfig::default()).expect("add cluster");
+    store.global_epoch = spec["global_epoch"].as_u64().unwrap_or(0);
+    let cluster_epoch = spec["cluster_epoch"].as_u64().unwrap_or(0);
+    for c in store.clusters.values_mut() {
+        c.epoch = cluster_epoch;
+    }
+    let shared = Arc::new(parking_lot::RwLock::new(store));
+    let storage = MemoryStorage::new(shared.clone());
+    let res = std::panic::catch_unwind(std::panic::AssertUnwindSafe(|| futures::executor::block_on(storage.recover_epoch(largest))));
+    match res {
+        Err(_) => println!("VERIF-REPLAY: violated no-panic recover_epoch({}) panicked", largest),
+        Ok(_) => {
+            let st = shared.read();
+            let addrs: Vec<String> = st.all_proxies.keys().cloned().collect();
+            for a in addrs {
+                let served = st.get_proxy_by_address(&a, 0).map(|p| p.get_epoch()).unwrap_or(0);
+                if served <= largest {
+                    println!("VERIF-REPLAY: violated C13/served-epoch-not-above-largest-proxy-epoch proxy={} served={} largest={}", a, served, largest);
+                }
+            }
+            if let Some(c) = st.get_cluster_by_name("c1", 0) {
+                if c.get_epoch() <= largest {
+                    println!("VERIF-REPLAY: violated C13/cluster-epoch-not-above-largest-proxy-epoch served={} largest={}", c.get_epoch(), largest);
+                }
+            }
+        }
+    }
+    println!("VERIF-REPLAY: done");
+}
